@@ -451,6 +451,11 @@ func (b *builder) call(c *ssa.Call) *Expr {
 		e.Args = append(e.Args, b.expr(cc.Value))
 	}
 	for _, a := range cc.Args {
+		if al, ok := stripConv(a).(*ssa.Alloc); ok && b.rd != nil && al.Parent() == b.fn && !b.rd.captured[al] {
+			// pointer to a local: describe what it points to at the time of the call
+			e.Args = append(e.Args, &Expr{Op: "ref", Args: []*Expr{b.rd.at(c, al, nil)}, V: al})
+			continue
+		}
 		e.Args = append(e.Args, b.expr(a))
 	}
 	// canonical form of a store read: state:<section>(key)
